@@ -43,7 +43,7 @@ func Perturb(t *rapid.T, spec *Spec) (*Spec, string) {
 		}
 	case 4: // one domain
 		for _, m := range c.Nodes() {
-			if m.K == "domain" || m.K == "handleddomain" || m.K == "handleddomainmsg" {
+			if m.K == "domain" || m.K == "handleddomain" || m.K == "handleddomainmsg" || m.K == "ukeymarker" {
 				m.S[0] += "x"
 				return c, "domain"
 			}
